@@ -58,9 +58,11 @@ func vfC19GenStream(rt *rapid.T, c *vfCase) (vfC17Cfg, []vfC17Op) {
 	if vfThorough() {
 		maxOps = 28
 	}
-	n := rapid.IntRange(2, maxOps).Draw(rt, "nops")
+	n := rapid.IntRange(4, maxOps).Draw(rt, "nops")
 	// per-case flavour keeps single cases focused (mostly one channel / mostly versions / mostly idempotency)
 	chBias := rapid.SampledFrom([]int{0, 0, 1, 2}).Draw(rt, "chBias") // 0: channel 0 only, 1: channel 1 only, 2: both
+	idemPct := rapid.SampledFrom([]int{8, 8, 30, 60}).Draw(rt, "idemPct")
+	advPct := rapid.SampledFrom([]int{10, 20, 35}).Draw(rt, "advPct")
 	ops := make([]vfC17Op, 0, n)
 	for i := 0; i < n; i++ {
 		op := vfC17Op{}
@@ -72,7 +74,7 @@ func vfC19GenStream(rt *rapid.T, c *vfCase) (vfC17Cfg, []vfC17Op) {
 		}
 		k := rapid.IntRange(0, 99).Draw(rt, "kind")
 		switch {
-		case k < 62:
+		case k < 100-advPct-15:
 			op.Kind = vfC17OpPublish
 			op.Data = fmt.Sprintf("d%d", i)
 			if rapid.IntRange(0, 4).Draw(rt, "histOff") == 0 {
@@ -85,19 +87,19 @@ func vfC19GenStream(rt *rapid.T, c *vfCase) (vfC17Cfg, []vfC17Op) {
 				op.TTL = rapid.SampledFrom([]int{2, 5, 30, 30, 600}).Draw(rt, "ttl")
 			}
 			op.MetaTTL = rapid.SampledFrom([]int{0, 0, 0, 0, 8}).Draw(rt, "meta")
-			if rapid.IntRange(0, 99).Draw(rt, "idem") < 50 {
+			if rapid.IntRange(0, 99).Draw(rt, "idem") < idemPct {
 				op.IdemKey = rapid.SampledFrom([]string{"k", "k", "b_k", "j"}).Draw(rt, "ikey")
 				op.IdemTTL = rapid.SampledFrom([]int{0, 1, 1, 2, 3}).Draw(rt, "ittl")
 			}
-			if rapid.IntRange(0, 99).Draw(rt, "ver") < 55 {
+			if rapid.IntRange(0, 99).Draw(rt, "ver") < 60 {
 				op.Version = rapid.SampledFrom(vfC19Versions).Draw(rt, "version")
 				op.VEpoch = rapid.SampledFrom([]string{"", "", "x", "x", "y"}).Draw(rt, "vepoch")
 			}
-		case k < 78:
+		case k < 100-advPct-3:
 			op.Kind = vfC17OpHistory
 			op.Limit = -1
 			op.Reverse = rapid.IntRange(0, 3).Draw(rt, "reverse") == 0
-		case k < 81:
+		case k < 100-advPct:
 			op.Kind = vfC17OpRemove
 		default:
 			op.Kind = vfC17OpAdvance
@@ -441,30 +443,41 @@ func vfC19MEnts(pubs []*Publication) []vfC19MEnt {
 	return out
 }
 
+var (
+	vfC19MNode   *Node
+	vfC19MChOpts map[string]MapChannelOptions
+)
+
 func vfC19MExec(t *testing.T, cfg vfC19MCfg, ops []vfC19MOp) (verdict string, labels []string) {
 	lab := map[string]bool{}
 	for ci := range cfg.Chans { // final observation of every channel
 		ops = append(ops[:len(ops):len(ops)], vfC19MOp{Kind: vfC19MReadStream, Ch: ci}, vfC19MOp{Kind: vfC19MReadState, Ch: ci})
 	}
-	verdict = vfBubble(t, func() string {
-		const day = 24 * time.Hour
-		chOpts := map[string]MapChannelOptions{}
-		for i, ch := range cfg.Chans {
-			o := MapChannelOptions{Mode: cfg.Modes[i]}
-			switch cfg.Modes[i] {
-			case MapModeEphemeral:
-				o.KeyTTL = day
-			case MapModeRecoverable:
-				o.KeyTTL, o.StreamTTL, o.StreamSize = day, day, cfg.Sizes[i]
-			default:
-				o.StreamTTL, o.StreamSize = day, cfg.Sizes[i]
-			}
-			chOpts[ch] = o
+	const day = 24 * time.Hour
+	chOpts := map[string]MapChannelOptions{}
+	for i, ch := range cfg.Chans {
+		o := MapChannelOptions{Mode: cfg.Modes[i]}
+		switch cfg.Modes[i] {
+		case MapModeEphemeral:
+			o.KeyTTL = day
+		case MapModeRecoverable:
+			o.KeyTTL, o.StreamTTL, o.StreamSize = day, day, cfg.Sizes[i]
+		default:
+			o.StreamTTL, o.StreamSize = day, cfg.Sizes[i]
 		}
-		node, err := New(Config{Map: MapConfig{GetMapChannelOptions: func(ch string) MapChannelOptions { return chOpts[ch] }}})
+		chOpts[ch] = o
+	}
+	// one never-started Node for all cases (see vfC17Nodes); its options resolver reads the current case's table
+	vfC19MChOpts = chOpts
+	if vfC19MNode == nil {
+		n, err := New(Config{Map: MapConfig{GetMapChannelOptions: func(ch string) MapChannelOptions { return vfC19MChOpts[ch] }}})
 		if err != nil {
-			return "INTERNAL: New: " + err.Error()
+			return "INTERNAL: New: " + err.Error(), nil
 		}
+		vfC19MNode = n
+	}
+	node := vfC19MNode
+	verdict = vfC17Bubble(t, func() string {
 		mb, err := NewMemoryMapBroker(node, MemoryMapBrokerConfig{})
 		if err != nil {
 			return "INTERNAL: NewMemoryMapBroker: " + err.Error()
@@ -636,9 +649,11 @@ func vfC19GenMap(rt *rapid.T) (vfC19MCfg, []vfC19MOp) {
 	if vfThorough() {
 		maxOps = 30
 	}
-	n := rapid.IntRange(2, maxOps).Draw(rt, "nops")
+	n := rapid.IntRange(4, maxOps).Draw(rt, "nops")
 	chBias := rapid.SampledFrom([]int{0, 0, 0, 2}).Draw(rt, "chBias")
 	nKeys := rapid.IntRange(1, 3).Draw(rt, "nkeys")
+	idemPct := rapid.SampledFrom([]int{8, 8, 30, 60}).Draw(rt, "idemPct")
+	advPct := rapid.SampledFrom([]int{8, 16, 30}).Draw(rt, "advPct")
 	ops := make([]vfC19MOp, 0, n)
 	for i := 0; i < n; i++ {
 		op := vfC19MOp{Ch: chBias}
@@ -652,13 +667,13 @@ func vfC19GenMap(rt *rapid.T) (vfC19MCfg, []vfC19MOp) {
 				op.IdemTTLms = rapid.SampledFrom([]int{0, 1000, 1000, 1500, 2000, 3000}).Draw(rt, "ittl")
 			}
 		}
-		k := rapid.IntRange(0, 99).Draw(rt, "kind")
+		k := rapid.IntRange(0, 99-16+advPct).Draw(rt, "kind")
 		switch {
 		case k < 55:
 			op.Kind = vfC19MPublish
 			op.Data = fmt.Sprintf("d%d", i)
-			drawIdem(45)
-			verPct := 55
+			drawIdem(idemPct)
+			verPct := 60
 			if cfg.Modes[op.Ch].IsEphemeral() {
 				verPct = 8
 			}
@@ -668,7 +683,7 @@ func vfC19GenMap(rt *rapid.T) (vfC19MCfg, []vfC19MOp) {
 			}
 		case k < 67:
 			op.Kind = vfC19MRemove
-			drawIdem(60)
+			drawIdem(idemPct + 15)
 		case k < 70:
 			op.Kind = vfC19MClear
 		case k < 77:
